@@ -86,12 +86,12 @@ func firstLines(s string, n int) string {
 // TestVerifC20Inputs: no loop body panics, whatever the coordination tree and the servers hold.
 func TestVerifC20Inputs(t *testing.T) {
 	stt := vs.NewStats(t, "C20")
-	stt.Rule = "cluster of 2-3 HA hosts (+0-1 cascade) converged by the real daemons, then 6-30 actions from {loop body (manager iteration / health / recovery check / lag check) of a drawn process, full round} interleaved with coordination-tree edits reachable through the CLI or external tools {unregister an HA host (also the recorded master, also a dead one), register it again, register a host that does not exist, stream_from pointing at an unregistered host / at itself / cascade entry removed, health record deleted or made stale, active_nodes with an unregistered name / empty / removed, recovery mark or optimisation-registry entry for an unregistered host, master key set to an unregistered host / to the cascade replica / removed, switch request naming an unregistered host, maintenance on/off; any of the registration/health/master/active-list edits also landing between two coordination requests of a running loop body} and faults {failing / hanging / cut statement at a drawn position, mysqld crash/start, ZooKeeper down/up, time jump}; oracle: no panic in any loop body (the harness recovers it; the daemon would die); non-trivial = at least one dangling reference or fault was injected"
+	stt.Rule = "cluster of 2-3 HA hosts (+0-1 cascade) converged by the real daemons, then 6-30 actions from {loop body (manager iteration / health / recovery check / lag check) of a drawn process, full round} interleaved with coordination-tree edits reachable through the CLI or external tools {unregister an HA host (also the recorded master, also a dead one), register it again, register a host that does not exist, stream_from pointing at an unregistered host / at itself / cascade entry removed, health record deleted or made stale, active_nodes with an unregistered name / empty / removed, recovery mark or optimisation-registry entry for an unregistered host, master key set to an unregistered host / to the cascade replica / removed, switch request naming an unregistered host, maintenance on/off, a replica lagging by hours with resetup_host_lag 30s; any of the registration/health/master/active-list edits also landing between two coordination requests of a running loop body} and faults {failing / hanging / cut statement at a drawn position, mysqld crash/start, ZooKeeper down/up, time jump}; oracle: no panic in any loop body (the harness recovers it; the daemon would die); non-trivial = at least one dangling reference or fault was injected"
 	stt.Assumptions = simAssumptions
 	stt.Check(t, vs.CheckOpts{Bubble: true}, func(c *vs.Case) {
 		n := c.Src.Int("ha_hosts", 2, 3)
 		ha := []string{"h1", "h2", "h3"}[:n]
-		o := simOpts{HA: ha, LogLevel: simLogLevel(), Cfg: map[string]string{"failover_cooldown": "0s", "manager_switchover": fmt.Sprint(c.Src.Bool("manager_switchover"))}}
+		o := simOpts{HA: ha, LogLevel: simLogLevel(), Cfg: map[string]string{"failover_cooldown": "0s", "manager_switchover": fmt.Sprint(c.Src.Bool("manager_switchover")), "resetup_host_lag": c.Src.Pick("resetup_host_lag", "25h", "30s")}}
 		if c.Src.Bool("cascade") {
 			o.Cascade = map[string]string{"c1": ha[n-1]}
 		}
@@ -113,7 +113,7 @@ func TestVerifC20Inputs(t *testing.T) {
 		hostile := false
 		steps := c.Src.Int("steps", 6, 30)
 		for i := 0; i < steps; i++ {
-			act := c.Src.Pick("action", "body", "body", "body", "round", "round", "unregister", "register-again", "register-ghost", "stream-from", "health-record", "active-nodes", "recovery-ghost", "optimization-ghost", "master-key", "switch-ghost", "maintenance", "fault", "crash", "start", "zk-down", "zk-up", "advance", "edit-during-a-body")
+			act := c.Src.Pick("action", "body", "body", "body", "round", "round", "unregister", "register-again", "register-ghost", "stream-from", "health-record", "active-nodes", "recovery-ghost", "optimization-ghost", "master-key", "switch-ghost", "maintenance", "fault", "crash", "start", "zk-down", "zk-up", "advance", "edit-during-a-body", "replica-lags")
 			switch act {
 			case "body":
 				ps := s.alive()
@@ -205,6 +205,21 @@ func TestVerifC20Inputs(t *testing.T) {
 				} else {
 					s.opSwitch([]string{"nowhere", pickHost("switch.host")}[c.Src.Int("switch.ghost", 0, 1)], "", c.Src.Bool("switch.failover"), "operator")
 				}
+				hostile = true
+			case "replica-lags":
+				// an old transaction received and not applied: Seconds_Behind is hours (the lag check of
+				// that host then looks at the recorded master)
+				h := pickHost("lag.host")
+				s.w.Lock()
+				if hh := s.w.Hosts[h]; hh.Up && hh.Chan != nil {
+					hh.ApplyDelay = 1000 * time.Hour
+					if mh := s.w.Hosts[hh.Chan.Source]; mh != nil {
+						tx := vs.Txn{UUID: mh.UUID, Gno: mh.NextGno, Size: 100, At: time.Now().Add(-2 * time.Hour)}
+						mh.AddExecuted(tx)
+						hh.AddRelay(tx, time.Now())
+					}
+				}
+				s.w.Unlock()
 				hostile = true
 			case "edit-during-a-body":
 				// "hosts added or removed at any moment": the edit lands between two coordination
